@@ -174,7 +174,7 @@ def check_shape(t, shape, style_names=None, iter_names=None, text=True):
         # text layout: str() and by_attr()
         # ("further lines" are what str.splitlines() says: \r, \r\n, \f, \v, U+2028 ... separate lines like \n does)
         vals = ["x", "", "x\ny", "\n", "a\n\nb", ["l1", "l2"], [], ("t",), 7, "<missing>", 0, 0.0, False, None, {}, (),
-                "c\rd", "e\r\nf", "g\x0ch\x0bi", "j\u2028k\x85l"]
+                "c\rd", "e\r\nf", "g\x0ch\x0bi", "j\u2028k\x85l", ["t", "", "b"], ("", "x"), [""], ["two\nlines", ""]]
         for rot in range(3):
             nodes = tree.build(m, tree.default_factory("user"), "topdown")
             idm = tree.IdMap(nodes)
@@ -341,7 +341,7 @@ def run(tier):
     jobs = [(MOD, "job", {"shapes": c, "text": True, "reprs": True}) for c in core.chunks(shapes[::-1], core.NPROC * 6)]
     # the same inputs once more in the opposite order and another chunking: results must not depend on what ran before
     jobs += [(MOD, "job", {"shapes": c, "text": True, "reprs": False}) for c in core.chunks(shapes, core.NPROC * 2 + 1)]
-    core.run_pool(jobs + [("mc.capacity", "job", {"pid": "C09"}), ("mc.positional", "job", {"pid": "C09"})], 0, into=t)
+    core.run_pool(jobs + [("mc.capacity", "job", {"pid": "C09"}), ("mc.positional", "job", {"pid": "C09"}), ("mc.numbers", "job", {"pid": "C09"})], 0, into=t)
     core.run_pool([(MOD, "job", {"shapes": c, "text": False, "reprs": False}) for c in core.chunks(tree.shapes_upto(5), core.NPROC)], 1, into=t)
     cov = {
         "states": t.c["states"], "transitions": t.c["evaluations"], "traces_validated_against_impl": t.c["evaluations"],
@@ -355,5 +355,5 @@ def run(tier):
         "bounds": {"max_nodes": nmax, "shapes": len(shapes)},
     }
     return {"tally": t, "coverage": cov,
-            "guards": ("positional_calls", "reconfigured_renderings", "capacity_checks", "nontrivial", "childiter_changes_rows", "maxlevel_cuts", "text_renderings", "reprs", "render_reuse_checks"),
+            "guards": ("unusual_number_calls", "positional_calls", "reconfigured_renderings", "capacity_checks", "nontrivial", "childiter_changes_rows", "maxlevel_cuts", "text_renderings", "reprs", "render_reuse_checks"),
             "assumptions": ["bounded tree size; styles of equal segment width (as the statement requires)"]}
